@@ -39,6 +39,14 @@ class _Return(Exception):
         self.value = value
 
 
+class _Break(Exception):
+    pass
+
+
+class _Continue(Exception):
+    pass
+
+
 class _Backtrack(Exception):
     pass
 
@@ -200,6 +208,7 @@ class RecArrV:
 
     def __init__(self, fields):
         self.fields = dict(fields)
+        stamp(self)
 
     @property
     def shape(self):
@@ -562,6 +571,7 @@ class Exec:
         self.decisions = []  # (value, was_default)
         self.pc = list(pc0 or [])
         self.wd = []  # (condition term that must hold, description, pc snapshot)
+        self.loop_kinds = []  # innermost last: "concrete" (python iteration), "independent", "recurrence", "append"
         self.facts = []
         self.qfacts = []  # callables idx-term -> fact term
         self.frames = []
@@ -642,7 +652,7 @@ class Exec:
         base = target
         while isinstance(base, ArrV) and base.view_of is not None:
             base = base.view_of[0]
-        if isinstance(base, (ArrV, TableV, RecArrV)) and stamp_of(base) <= getattr(self, "arg_stamp", -1):
+        if isinstance(base, (ArrV, TableV, RecArrV)) and 0 < stamp_of(base) <= getattr(self, "arg_stamp", -1):
             ARG_DATA_WRITES.append((getattr(base, "name", None) or getattr(base, "srcname", None) or type(base).__name__) + (" [masked store]" if masked else ""))
         if stamp_of(base) <= self.entry_stamp:
             self.heap_writes += 1
@@ -755,6 +765,7 @@ class Exec:
         while True:
             ex = Exec(self.eng, sub_trail, pc0=list(self.pc))
             ex.arg_stamp = getattr(self, "arg_stamp", -1)
+            ex.wd = self.wd   # shared: element functions built inside the call add their conditions when they are evaluated, later
             ex.frames = list(self.frames)
             ex.fresh = self.fresh
             ex.hooks = self.hooks
@@ -785,7 +796,8 @@ class Exec:
             self.heap_writes += ex.heap_writes
         # well-definedness and facts of the sub-paths are kept (conditions already carry their pc)
         for kind, v, pcs, ex in results:
-            self.wd.extend(ex.wd)
+            if ex.wd is not self.wd:
+                self.wd.extend(ex.wd)
             for fa in ex.facts:
                 if fa not in self.facts:
                     self.facts.append(tm.implies(tm.land(*pcs), fa))
@@ -977,6 +989,10 @@ class Exec:
             src = ast.unparse(it.context_expr)
             if not (src.startswith("warnings.") or src.startswith("np.errstate(") or src.startswith("numpy.errstate(")):
                 raise OutOfSubset(f"with {src}")
+            if "errstate" in src and isinstance(it.context_expr, ast.Call) and any(isinstance(k_.value, ast.Constant) and k_.value.value == "raise" for k_ in it.context_expr.keywords):
+                # floating-point conditions (underflow, overflow, invalid, division) become exceptions inside the block:
+                # the real-number semantics cannot see them - the bounded search decides
+                raise OutOfSubset(f"with {src}: floating-point conditions raise FloatingPointError inside the block")
         self.exec_block(st.body)
 
     def st_For(self, st):
@@ -990,10 +1006,77 @@ class Exec:
             return self.loop_recurrence(st, it)
         if isinstance(it, EnumV) and isinstance(it.inner, ArrV) and it.inner.static_len() is None:
             return self.loop_independent(st, it)
+        if isinstance(it, ArrV) and it.ndim == 1 and it.static_len() is None and it.mask is None:
+            return self.loop_append(st, it)
         seq = self.iterate(it)
-        for v in seq:
-            self.assign(st.target, v)
-            self.exec_block(st.body)
+        self.loop_kinds.append("concrete")
+        try:
+            for v in seq:
+                self.assign(st.target, v)
+                try:
+                    self.exec_block(st.body)
+                except _Continue:
+                    continue
+                except _Break:
+                    break
+        finally:
+            self.loop_kinds.pop()
+
+    def st_Continue(self, st):
+        if not self.loop_kinds or self.loop_kinds[-1] not in ("concrete", "independent"):
+            raise OutOfSubset("continue in a loop that is summarised symbolically")
+        raise _Continue()
+
+    def st_Break(self, st):
+        # an early exit makes the iterations of a summarised loop depend on each other: outside the subset there
+        if not self.loop_kinds or self.loop_kinds[-1] != "concrete":
+            raise OutOfSubset("break in a loop that is summarised symbolically (early exit)")
+        raise _Break()
+
+    # ---- `for v in arr: ...; out.append(expr)` over a symbolic-length array: the loop form of a comprehension
+    def loop_append(self, st, arr):
+        """the body may bind locals and must end its effect in `L.append(expr)` on python lists L that are EMPTY when the
+        loop starts (one append per list, unconditional, last use of the list in the body); iterations are independent, so
+        each list becomes the map of its expression over the array (as for a list comprehension)"""
+        if not isinstance(st.target, ast.Name):
+            raise OutOfSubset("loop target")
+        appends = {}
+        plain = []
+        for b in st.body:
+            if (isinstance(b, ast.Expr) and isinstance(b.value, ast.Call) and isinstance(b.value.func, ast.Attribute) and b.value.func.attr == "append"
+                    and isinstance(b.value.func.value, ast.Name) and len(b.value.args) == 1 and not b.value.keywords):
+                nm = b.value.func.value.id
+                if nm in appends:
+                    raise OutOfSubset("two appends to one list in a loop over a symbolic-length array")
+                appends[nm] = b.value.args[0]
+            elif isinstance(b, (ast.Assign, ast.AnnAssign)) and all(isinstance(t_, ast.Name) for t_ in (b.targets if isinstance(b, ast.Assign) else [b.target])):
+                if appends:
+                    raise OutOfSubset("statement after an append in a loop over a symbolic-length array")
+                plain.append(b)
+            else:
+                raise OutOfSubset("loop over a symbolic-length array whose body is not `locals...; list.append(expr)`")
+        if not appends:
+            raise OutOfSubset("loop over a symbolic-length array without an append")
+        fr = self.frames[-1]
+        for nm in appends:
+            cur = self.lookup(nm)
+            if not (isinstance(cur, list) and len(cur) == 0):
+                raise OutOfSubset(f"append to {nm}, which is not an empty list at loop entry")
+        results = {}
+        for nm, expr in appends.items():
+            def body(v, expr=expr):
+                saved = dict(fr.env)
+                self.assign(st.target, v)
+                try:
+                    for b in plain:
+                        self.exec_stmt(b) if hasattr(self, "exec_stmt") else self.exec_block([b])
+                    return self.eval(expr)
+                finally:
+                    fr.env.clear()
+                    fr.env.update(saved)
+            results[nm] = self.eng.lib.map_over(self, arr, body)
+        for nm, ml in results.items():
+            self.assign(ast.Name(id=nm, ctx=ast.Store()), ml)
 
     # ---- loops over a symbolic range: summarised exactly as a recurrence
     def loop_recurrence(self, st, rng):
@@ -1002,6 +1085,13 @@ class Exec:
         0 <= i < N.  The body is executed once at a symbolic i; the record goes to ghost['loops'] for contracts."""
         if not (tm.is_const(rng.start) and tm.cval(rng.start) == 0 and tm.is_const(rng.step) and tm.cval(rng.step) == 1):
             raise OutOfSubset("symbolic loop not of the form range(N)")
+        self.loop_kinds.append("recurrence")
+        try:
+            return self._loop_recurrence(st, rng)
+        finally:
+            self.loop_kinds.pop()
+
+    def _loop_recurrence(self, st, rng):
         if not isinstance(st.target, ast.Name):
             raise OutOfSubset("loop target")
         N = rng.stop
@@ -1093,6 +1183,7 @@ class Exec:
             ex.arg_stamp = getattr(self, "arg_stamp", -1)
             ex.frames = list(self.frames)
             ex.fresh, ex.hooks, ex.ghost = self.fresh, self.hooks, self.ghost
+            ex.loop_kinds = ["independent"]
             fr.env.clear()
             fr.env.update(saved_env)
             m0 = len(effects)
@@ -1101,6 +1192,10 @@ class Exec:
                 ex.exec_block(st.body)
             except _Backtrack:
                 pass
+            except _Continue:
+                pass      # this iteration ends here on this path: the effects recorded so far keep their guard
+            except _Break:
+                raise OutOfSubset("break in a loop with independent iterations") from None
             for e in effects[m0:]:
                 e["guard"] = tm.land(*ex.pc[base:])
                 e["index"] = i
@@ -1432,7 +1527,34 @@ class Exec:
             return True
         if self.trail is None:
             return True
-        return not writes_params(f.node)
+        return not self.writes_params_deep(f)
+
+    def writes_params_deep(self, f, depth=3):
+        """writes_params, also through helpers: a parameter handed on to a repository function that stores into ITS
+        parameter is written as well (an extracted helper must not change how the caller is executed)"""
+        if writes_params(f.node):
+            return True
+        if depth == 0 or not isinstance(f.node, ast.FunctionDef):
+            return False
+        params = {a.arg for a in f.node.args.posonlyargs + f.node.args.args + f.node.args.kwonlyargs}
+        for n in ast.walk(f.node):
+            if not isinstance(n, ast.Call):
+                continue
+            passed = [a for a in list(n.args) + [k.value for k in n.keywords] if isinstance(a, ast.Name) and a.id in params]
+            if not passed:
+                continue
+            callee = None
+            try:
+                if isinstance(n.func, ast.Name):
+                    callee = self.eng.mod_global(f.module, n.func.id)
+                elif isinstance(n.func, ast.Attribute) and isinstance(n.func.value, ast.Name) and n.func.value.id in ("self", "cls") and ":" in f.qualname and "." in f.qualname.split(":")[1]:
+                    owner = self.eng.cls(f.qualname.split(":")[0] + ":" + f.qualname.split(":")[1].rsplit(".", 1)[0])
+                    callee = owner.lookup(n.func.attr) if isinstance(owner, ClassV) else None
+            except Exception:  # noqa: BLE001 - not resolvable statically: no information
+                callee = None
+            if isinstance(callee, FuncV) and callee.node is not f.node and self.writes_params_deep(callee, depth - 1):
+                return True
+        return False
 
     def comprehension(self, e, make):
         if len(e.generators) != 1:
